@@ -1,7 +1,146 @@
-//! C20 — not implemented yet.
-use vcore::Ctx;
+//! C20 — netlists are well-formed and the reports match them.
+//!
+//! Same cases as C19 (`synth_case::gen_case`, same choice sequence → same
+//! text / library / `RamConfig`).  For the `SynthResult` that `synthesize_with`
+//! returns (the value `veryl synth` prints from):
+//!
+//! * every net id is in range; `inputs.len()` equals the arity of the kind
+//!   (operands of the documented formula, and `CellKind::arity`);
+//! * every *used* net (read by a cell, an FF D / clock / reset pin, an output
+//!   port or a RAM input pin) has exactly one structural driver (cell output,
+//!   FF `q`, RAM read data bit, input port, constant) and `NetInfo::driver`
+//!   names exactly that driver;
+//! * the cell graph is acyclic (flip-flops and registered RAM reads cut it);
+//! * `AreaReport` = Σ library areas of the cells + flip-flops × FF area +
+//!   RAM bits × bit area (every field, 1e-9 relative);
+//! * `TimingReport`: the delay is the longest combinational path to any end
+//!   point (FF D, output bit, RAM write pin), recomputed by a topological DP;
+//!   the reported end point is such a latest end point, the reported depth is
+//!   the number of levels of the longest path to it (`Buf` adds delay but no
+//!   level, an asynchronous RAM read adds the block's access time and one
+//!   level), and the reported path is a path of the netlist with the
+//!   recomputed arrival times.
+//!
+//! The reports are recomputed for all four cell libraries on every netlist
+//! (`compute_area` / `compute_timing`), not only for the one the netlist was
+//! built for.
 
-pub fn run(_ctx: &Ctx) {
-    println!("INCONCLUSIVE property=C20: check not implemented");
-    std::process::exit(2);
+use crate::synth_case::*;
+use crate::wellformed::*;
+use vcore::{CaseCfg, Ctx, Draw, Outcome, Value, hash_str, json};
+use vdesign::*;
+use veryl_synthesizer::analysis::{compute_area, compute_timing};
+use veryl_synthesizer::library_for;
+
+pub fn evaluate(case: &SynthCase) -> Outcome {
+    let a = match Analyzed::new(&case.text) {
+        Ok(a) => a,
+        Err(r) => {
+            let code = r.errors.first().map(|e| e.0.clone()).unwrap_or_default();
+            return Outcome::skip(format!("generated text rejected by the analyzer ({}:{code})", r.stage));
+        }
+    };
+    let sr = match synthesize(&a, case.library, case.ram) {
+        Synth::Ok(r) => r,
+        Synth::Rejected(why) => return Outcome::skip(format!("synthesizer rejects the design ({why})")),
+        Synth::Panic(msg) => return Outcome::skip(format!("synthesizer panics ({msg})")),
+    };
+    let m = &sr.gate_ir.module;
+    let payload = |extra: Value| json!({"veryl": case.text, "options": case.options_json(), "detail": extra});
+    let fail = |f: &Finding, what: &str| {
+        Outcome::fail(
+            f.0.clone(),
+            format!(
+                "{what}: {}\n[library {}, {:?}]\n{}\n-- gate ir --\n{}",
+                f.1,
+                library_name(case.library),
+                case.ram,
+                case.text,
+                if m.cells.len() < 200 { format!("{}", sr.gate_ir) } else { format!("({} cells)", m.cells.len()) }
+            ),
+            payload(json!({"finding": f.0, "message": f.1})),
+        )
+    };
+    let st = check_structure(m);
+    if let Some(f) = st.first() {
+        return fail(f, "structure");
+    }
+    let mut classes = case.classes.clone();
+    classes.push(format!("family:{}", case.family));
+    classes.push(format!("library:{}", library_name(case.library)));
+    netlist_classes(m, &mut classes);
+    // the reports that were returned, then the reports for the other libraries
+    for (k, lib_id) in LIBRARIES.iter().enumerate() {
+        let lib = library_for(*lib_id);
+        let own = *lib_id == case.library;
+        let (area, timing) = if own { (sr.area.clone(), sr.timing.clone()) } else { (compute_area(m, lib), compute_timing(m, lib)) };
+        let ar = check_area(m, lib, &area);
+        if let Some(f) = ar.first() {
+            return fail(f, &format!("area report ({})", library_name(*lib_id)));
+        }
+        let (tr, facts) = check_timing(m, lib, &timing);
+        if let Some(f) = tr.first() {
+            return fail(f, &format!("timing report ({})", library_name(*lib_id)));
+        }
+        if own || k == 0 {
+            if facts.endpoints == 0 {
+                classes.push("timing:no_endpoint".into());
+            }
+            if facts.bufs > 0 {
+                classes.push("timing:netlist_has_buf".into());
+            }
+            if facts.async_ram_on_path {
+                classes.push("timing:async_ram_read_on_critical_path".into());
+            }
+            if facts.depth_at_endpoint > 0 {
+                classes.push("timing:depth_gt0".into());
+                classes.push(if facts.depth_at_endpoint == facts.global_max_depth { "timing:critical_endpoint_is_deepest".into() } else { "timing:deeper_endpoint_exists".to_string() });
+                classes.push(if facts.depth_at_endpoint == facts.levels_on_reported_path { "timing:depth_equals_levels_of_reported_path".into() } else { "timing:depth_exceeds_levels_of_reported_path".to_string() });
+            }
+        }
+    }
+    if sr.area.memory > 0.0 {
+        classes.push("area:memory".into());
+    }
+    if case.family == "ram" {
+        classes.push(if m.ram_blocks.is_empty() { "ram:not_inferred".into() } else { "ram:inferred".to_string() });
+    }
+    let sample = format!("{}// options: {}", case.text, case.options_json());
+    Outcome::pass(hash_str(&sample), nontrivial(m), classes, sample)
+}
+
+pub fn replay_recorded(p: &Value) -> Outcome {
+    let case = crate::c19::case_from_payload(p);
+    match evaluate(&case) {
+        Outcome::Fail(mut f) => {
+            if let Some(r) = p["root"].as_str() {
+                if f.signature.split(':').next() == r.split(':').next() {
+                    f.signature = r.to_string();
+                }
+            }
+            Outcome::Fail(f)
+        }
+        o => o,
+    }
+}
+
+pub fn one_case(d: &mut Draw) -> Outcome {
+    let case = gen_case(d);
+    evaluate(&case)
+}
+
+pub fn run(ctx: &Ctx) {
+    if let Err(e) = crate::gate_eval::self_test() {
+        println!("INCONCLUSIVE property=C20: gate evaluator self-test failed: {e}");
+        std::process::exit(2);
+    }
+    ctx.run_payloads("recorded", |p| crate::c19::recorded_on_own_thread(p, replay_recorded));
+    let n = std::env::var("C20_CASES").ok().and_then(|s| s.parse::<usize>().ok()).unwrap_or(ctx.scale(400, 30_000));
+    ctx.run("cases", CaseCfg::cases(n).choices(12_000).timeout_s(600), |d| crate::c19::discover("C20", one_case(d)));
+    ctx.assume("counting rules of the timing report as stated in compute_timing_top_n: start points arrive at 0, Buf adds delay but no level, an asynchronous RAM read adds SramModel::access_delay(depth) and one level from its latest address bit, end points are FF D pins, output/inout bits and RAM write pins");
+    ctx.assume("'critical-path depth' is read as: levels of the longest path to the reported (latest-arriving) end point; whether a deeper but faster end point exists is recorded as a class, not asserted");
+    ctx.finish(
+        "translation_validation",
+        "the netlists of the C19 cases (same generator): structure, driver bookkeeping, acyclicity, and area / timing reports recomputed for all four libraries; non-trivial = netlist has FFs and > 20 cells, or a RAM block; distinct by text + options",
+    );
 }
